@@ -47,6 +47,8 @@ class C04(rowgen.RowGenProp):
                 yield rowgen.gen_case(rng, spec, rng.randint(10, 120), call_p=0.1)
                 continue
             spec = gens.rand_pn_spec(rng, start_row_p=0.1)
+            if not spec.get("start_index") and spec.get("start_row") is None and rng.random() < 0.6:
+                spec["via_json"] = True       # built from server-mode JSON instead of the constructor
             L = len(gens.denote([(p, c) for p, c in spec["_ast"]]))
             nrows = rng.randint(2, min(12 * L, 150))
             if rng.random() < 0.8:
